@@ -55,7 +55,7 @@ def run(ctx):
     parts.append(tr)
     execs += tot.get('completed', 0)
     ctx.sample_trace(tr, 8)
-    n = 4000 if thorough else 600
+    n = 4000 if thorough else 250
     for pct in (0, 2):
         tr = os.path.join(ctx.work, 'rand_p%d.ndjson' % pct)
         tot, _ = ctx.driver(exe, ['--out', tr, '--random', n, '--seed', ctx.seed + pct, '--randprog',
@@ -73,10 +73,14 @@ def run(ctx):
                      label='cover replay + random controlled')
 
     # E5 --------------------------------------------------------------------------------------
-    sweeps = 12 if thorough else 1
+    # quick: 3 sweeps over a ladder of round sizes up to 64; thorough: 12 sweeps over every n in 1..64
+    sweeps = 12 if thorough else 3
+    args = ['--obs', '--out', os.path.join(ctx.work, 'obs.ndjson'), '--sweeps', sweeps, '--maxthreads', 64,
+            '--seed', ctx.seed]
+    if not thorough:
+        args += ['--sizes', '1,2,3,4,5,6,8,12,16,24,32,48,64']
     tr = os.path.join(ctx.work, 'obs.ndjson')
-    tot, _ = ctx.driver(exe, ['--obs', '--out', tr, '--sweeps', sweeps, '--maxthreads', 64, '--seed', ctx.seed],
-                        WHAT, label='E5 1..64 concurrent threads x %d sweeps' % sweeps)
+    tot, _ = ctx.driver(exe, args, WHAT, label='E5 1..64 concurrent threads x %d sweeps' % sweeps)
     if usable(tr):
         ctx.validate(SPEC, 'ThreadIdObs.tla', 'ThreadIdObs.cfg', tr, WHAT, executions=tot.get('completed', 0),
                      label='E5 observation records')
